@@ -558,19 +558,39 @@ pub fn gen_ws(ch: &mut Chooser, cx: &mut CaseCtx, o: &WsGenOpts) -> WsCase {
             sp.hunks = op.hunks.clone();
         }
         let text = render_patch(&specs);
-        let mut line = name.clone();
-        let opt_style = ch.below(4);
-        if d.strip != 1 || ch.chance(1, 4) {
-            line.push_str(&match opt_style {
-                0 => format!(" -p{}", d.strip),
-                1 => format!(" -p {}", d.strip),
-                2 => format!(" --strip={}", d.strip),
-                _ => format!(" --strip {}", d.strip),
-            });
+        let mut line = String::new();
+        if ch.chance(1, 10) {
+            // leading white space before the patch name is ignored
+            line.push_str(*ch.pick(&[" ", "  ", "\t"]));
+            feat.push("series-leading-whitespace".into());
         }
-        if reverse {
-            line.push_str(if ch.chance(1, 2) { " -R" } else { " --reverse" });
+        line.push_str(&name);
+        let opt_style = ch.below(4);
+        let explicit_strip = d.strip != 1 || ch.chance(1, 4);
+        if reverse && explicit_strip && ch.chance(1, 3) {
+            // combined short options, in either order
+            line.push_str(&if ch.chance(1, 2) { format!(" -Rp{}", d.strip) } else { format!(" -p{} -R", d.strip) });
             feat.push("reverse".into());
+            feat.push("series-combined-options".into());
+        } else {
+            let rev_first = reverse && ch.chance(1, 3);
+            if rev_first {
+                line.push_str(if ch.chance(1, 2) { " -R" } else { " --reverse" });
+            }
+            if explicit_strip {
+                line.push_str(&match opt_style {
+                    0 => format!(" -p{}", d.strip),
+                    1 => format!(" -p {}", d.strip),
+                    2 => format!(" --strip={}", d.strip),
+                    _ => format!(" --strip {}", d.strip),
+                });
+            }
+            if reverse && !rev_first {
+                line.push_str(if ch.chance(1, 2) { " -R" } else { " --reverse" });
+            }
+            if reverse {
+                feat.push("reverse".into());
+            }
         }
         if d.strip != 1 {
             feat.push("strip!=1".into());
@@ -581,6 +601,9 @@ pub fn gen_ws(ch: &mut Chooser, cx: &mut CaseCtx, o: &WsGenOpts) -> WsCase {
         }
         if ch.chance(1, 12) {
             series.push(String::new());
+        }
+        if ch.chance(1, 16) {
+            series.push("   ".into());
         }
         patches.push((name.clone(), B(text)));
         metas.push(PatchMeta { name, strip: d.strip, reverse, git, ops });
